@@ -929,3 +929,10 @@ Lemma complete_needed :
   /\ guard_C02_ast w_no_default = true
   /\ match conv_class default_env w_no_default with Ok i' => preserved w_no_default i' | Err _ => true end = false.
 Proof. vm_compute. repeat split; reflexivity. Qed.
+
+Lemma closed_dom_fields : forall o i i',
+    closed_dom o i = true ->
+    ir_doc i' = ir_doc i -> ir_params i' = ir_params i -> (forall g, ir_returns i' <> Has g) ->
+    internal_ok i' = true ->
+    closed_dom o i' = true.
+Proof. intros o i i' H Hd Hp Hr Hi. exact (closed_dom_core_eq o i i' H (mkCoreEq i i' Hd Hp Hr Hi)). Qed.
